@@ -1,6 +1,7 @@
 (* C03  Attribute values are inert, single-line, and decode to the original. *)
 From HT Require Import Model.Str Model.Tree Model.Escape Model.Render Spec.CharMap
-     Proofs.EscapeProofs Model.Attrs Spec.AttrsSpec Proofs.AttrsProofs Proofs.AttrsEmit.
+     Proofs.EscapeProofs Model.Attrs Spec.AttrsSpec Proofs.AttrsProofs Proofs.AttrsEmit
+     Model.DriverC03 Proofs.AttrsProgram.
 
 (* html_escape(text, attr=True) -- sequential replace over the regenerated
    HTML_ATTRS_ESCAPE_TABLE in source order -- is the per-character map of the statement. *)
@@ -83,6 +84,53 @@ Theorem C03_bool_none :
   /\ (forall r, norm_value (VFloat r) = Ok (Some (AStr r))).
 Proof. repeat split; reflexivity. Qed.
 Print Assumptions C03_bool_none.
+
+(* ---- attribute maps flowing from one tag into another ------------------------------------ *)
+(* A stored attribute map given back as a dict argument (tag.attrs itself, dict(tag.attrs), the
+   dict returned by consolidate_attrs, the map expanded into keywords): every stored value is
+   kept with its mark and still emits the same text ... *)
+Theorem C03_reused_value :
+  forall v : aval,
+    norm_value (arg_of_aval v) = Ok (Some v) /\ emit_arg (arg_of_aval v) = emit_aval v.
+Proof. intros v. split; [apply reuse_value|apply reuse_emit]. Qed.
+Print Assumptions C03_reused_value.
+
+(* ... the pairs it contributes to a call are exactly the stored (name, value) pairs, so
+   C03_merge_escapes_once / C03_update_escapes_once apply with the stored values as they are:
+   merged with further values, each original plain value is still escaped exactly once ... *)
+Theorem C03_reused_pairs :
+  forall a : attrs, wf_attrs a -> kept_pairs (dict_of_attrs a) = Ok a.
+Proof. intros a [_ H]. exact (kept_pairs_dict_of_attrs a H). Qed.
+Print Assumptions C03_reused_pairs.
+
+(* ... and alone it gives the same map again (what consolidate_attrs followed by a tag is) *)
+Theorem C03_reused_attrs :
+  forall a : attrs, wf_attrs a -> attrs_new [dict_of_attrs a] [] = Ok a.
+Proof. exact attrs_new_of_attrs. Qed.
+Print Assumptions C03_reused_attrs.
+
+(* every map reached by a program -- constructions whose dict arguments may be maps of
+   earlier tags, then update / item assignment / add_class / add_style / item-wise copying,
+   also with the tag's own map as the argument -- is well-formed, so the three facts above
+   apply at every step of every program *)
+Theorem C03_program_maps_wf :
+  forall (ss : list stage) (earlier : list attrs),
+    Forall (fun r => forall a, r = Ok a -> wf_attrs a) (run_stages earlier ss).
+Proof. exact run_stages_wf. Qed.
+Print Assumptions C03_program_maps_wf.
+
+(* non-vacuity: class = (plain a-quote merged with HTML <), title = plain LF: well-formed, and
+   given back as a dict it is the same map, which emits a&quot; < and &#10; *)
+Example C03_reuse_example :
+  let a := [([99;108;97;115;115], merged [AStr [97;34]; AHtml [60]]); ([116], AStr [10])] in
+  (NoDup (keys a) /\ Forall normalised (keys a))
+  /\ attrs_new [dict_of_attrs a] [] = Ok a
+  /\ map (fun kv => emit_aval (snd kv)) a = [[97;38;113;117;111;116;59;32;60]; [38;35;49;48;59]].
+Proof.
+  split; [split|split; vm_compute; reflexivity].
+  - repeat constructor; simpl; intuition discriminate.
+  - repeat constructor; unfold normalised; simpl; intuition discriminate.
+Qed.
 
 (* non-vacuity: a quote-bearing plain value merged with an HTML value and a newline *)
 Example C03_example :
